@@ -46,6 +46,8 @@ def run(ctx):
     RT2.check_recursion_coverage(ctx, 'R12.5', only={'group_period', 'group_as', 'group_aliased', 'group_identifier', 'group_order', 'group_typecasts', 'group_arrays'})
     check_followers(ctx, V)
     check_name_after_period(ctx, V)
+    check_accessor_simulation(ctx)
+    check_wrapping_order(ctx)
     from .. import rules_base as RB
     from .. import rules_lexer as RL_
     ctx.rule('R12.S', 'Lexer.get_tokens interpreted on short texts agrees token by token with the rule-table model the other rules use', floor=1)
@@ -457,3 +459,116 @@ def check_wiring(ctx):
     ok = len(rq) == 1 and kwapp and all(('keywords', True) in [a for a in gd.facts(n) if a[0] != '|'] for n in kwapp)
     ctx.ob('R12.6', '_get_first_name:keywords-only-on-request', f'{f.mod.relpath}:{f.node.lineno}',
            'keywords count as names only when the caller asks (alias after AS); the returned value has its quotes removed', bool(ok), '')
+
+
+def check_accessor_simulation(ctx):
+    """The accessors decided on concrete Identifier trees (the shapes grouping builds for `name`, `qualifier.name`, quoted forms, with an
+    alias with or without AS, with any whitespace in between): get_real_name / get_parent_name / get_alias / get_name / has_alias are
+    interpreted and must return the written name, qualifier, alias, alias-or-name and alias presence, quotes removed."""
+    import itertools
+    repo = ctx.repo
+    ctx.rule('R12.9', 'identifier accessors interpreted on Identifier trees: written name, qualifier, alias, alias-or-name, alias presence', floor=1)
+    ident = repo.classes.get('sqlparse.sql.Identifier')
+    ctx.need(ident is not None, 'sqlparse.sql.Identifier not found')
+    f0 = repo.lookup_method(ident, 'get_real_name')
+    loc = f'{f0.mod.relpath}:{f0.node.lineno}' if f0 is not None else 'sqlparse/sql.py'
+    NAME, SYM, PUN, WSP, NL, KW = TT(('Name',)), TT(('Literal', 'String', 'Symbol')), TT(('Punctuation',)), TT(('Text', 'Whitespace')), TT(('Text', 'Whitespace', 'Newline')), TT(('Keyword',))
+
+    def leaf(tt, v):
+        t_ = ME.AbsToken(repo, ttype=tt, value=v)
+        t_.parent = None
+        return t_
+
+    def group(kids):
+        g = ME.AbsToken(repo, cls=ident)
+        g.tokens, g.parent, g.is_whitespace = kids, None, False
+        g.value = ''.join(k.value for k in kids)
+        for k in kids:
+            k.parent = g
+        return g
+    names = [('x', NAME, 'x'), ('"My Col"', SYM, 'My Col'), ('`x y`', NAME, 'x y'), ('Tbl', NAME, 'Tbl')]
+    quals = [None, ('q', NAME, 'q'), ('"Q s"', SYM, 'Q s'), ('`q`', NAME, 'q')]
+    aliases = [None, ('a', NAME, 'a'), ('"An Alias"', SYM, 'An Alias'), ('`al`', NAME, 'al')]
+    spaces = [[(WSP, ' ')], [(NL, '\n')], [(WSP, ' '), (WSP, ' ')], [(NL, '\n'), (WSP, ' '), (WSP, ' ')]]
+    bad = {}
+    n = 0
+    for (nm, qu, al, with_as) in itertools.product(names, quals, aliases, (False, True)):
+        if al is None and with_as:
+            continue
+        for sp in (spaces if al is not None else [[]]):
+            kids = []
+            if qu is not None:
+                kids += [leaf(qu[1], qu[0]), leaf(PUN, '.')]
+            kids.append(leaf(nm[1], nm[0]))
+            if al is not None:
+                kids += [leaf(*s_) for s_ in sp]
+                if with_as:
+                    kids += [leaf(KW, 'as')] + [leaf(*s_) for s_ in sp]
+                kids.append(group([leaf(al[1], al[0])]))
+            node = group(kids)
+            want = {'get_real_name': nm[2], 'get_parent_name': qu[2] if qu else None, 'get_alias': al[2] if al else None,
+                    'get_name': al[2] if al else nm[2], 'has_alias': al is not None}
+            for acc, w in want.items():
+                ev = ME.Evaluator(ctx, repo.mod('sqlparse.sql'), ident)
+                ev.effects = True
+                try:
+                    m_ = ev._method_of(node, acc)
+                    got = m_() if m_ is not None else 'no such method'
+                except (ME.Unsupported, ME.Unknown) as e:
+                    ctx.ob('R12.9', 'simulation', loc, 'the identifier accessors are evaluable', None, f'{node.value!r}.{acc}(): {e}')
+                    return
+                except ME.Crash as e:
+                    got = f'raises {e}'
+                n += 1
+                if got != w:
+                    bad.setdefault(acc, []).append(f'{node.value!r}.{acc}() = {got!r}, written {w!r}')
+    ctx.info['accessor_simulated_calls'] = n
+    if not bad:
+        ctx.ob('R12.9', 'simulation', loc, f'{n} accessor calls on Identifier trees (name / qualifier.name, plain, double-quoted and back-quoted, alias with and '
+               'without AS, four kinds of whitespace in between): every accessor returns what is written', True)
+    for acc, items in sorted(bad.items()):
+        ctx.ob('R12.9', f'simulation:{acc}', loc, f'{acc}() returns what is written on every interpreted Identifier tree', False, f'{len(items)} call(s) differ, e.g. {items[:3]}')
+
+
+def check_wrapping_order(ctx):
+    """Object references inside a parenthesised subquery become Identifiers through group_identifier / group_as / group_aliased, and none of
+    those passes descends into an Identifier that exists already.  A pass that runs *before* them and wraps a whole Parenthesis into an
+    Identifier (as the left or right operand of `.`, `::`, `[..]`, AT TIME ZONE ...) therefore hides every reference in that subquery
+    from them."""
+    repo = ctx.repo
+    ctx.rule('R12.10', 'no Identifier-building pass that runs before the reference passes takes a Parenthesis as its operand', floor=1)
+    grp = repo.func('sqlparse.engine.grouping.group')
+    lists = [n for n in own_nodes(grp.node) if isinstance(n, ast.List) and len(n.elts) > 5]
+    ctx.need(lists, 'grouping.group: pass list not found')
+    order = [e.id for e in lists[0].elts if isinstance(e, ast.Name)]
+    ref_passes = [p for p in ('group_identifier', 'group_as', 'group_aliased') if p in order]
+    ctx.need(ref_passes, 'reference passes not found in the pass order')
+    # the passes that build Identifiers out of names / `x AS y` and skip existing Identifiers: group_identifier (@recurse(Identifier)) and
+    # group_as (_group with cls=Identifier); group_aliased descends everywhere.  _group handles the inside of a group before it looks at
+    # the group's own level, so group_as wrapping `c AS (...)` itself is harmless.
+    skipping = [p for p in ('group_identifier', 'group_as') if p in order]
+    par = repo.classes.get('sqlparse.sql.Parenthesis')
+    ident = repo.classes.get('sqlparse.sql.Identifier')
+    tok = ME.AbsToken(repo, cls=par)
+    n = 0
+    for cl in KD.group_clients(ctx):
+        pname = cl.f.name
+        if pname not in order or cl.cls is not ident:
+            continue
+        before = [p for p in skipping if p != pname and order.index(pname) < order.index(p)]
+        if not before:
+            continue
+        for side, which in (('left', 'valid_prev'), ('right', 'valid_next')):
+            r = cl.pred(which, tok)
+            some = ME.AbsToken(repo, TT(('Name',)), KD.GENERIC)
+            try:
+                ap, an = cl.post_absorbs(tok if side == 'left' else some, some, tok if side == 'right' else some)
+            except Exception:
+                ap, an = True, True
+            takes = bool(r is True and (ap if side == 'left' else an))
+            n += 1
+            ctx.ob('R12.10', f'{cl.name}:{side}', f'{cl.f.mod.relpath}:{cl.call.lineno}',
+                   f'{cl.name} (pass #{order.index(pname)}, before {before}) does not wrap a Parenthesis as its {side} operand', not takes,
+                   f'{which}(<Parenthesis>) is True and post keeps that operand: `(select a x from t u){". f" if side == "left" else ""}` becomes one Identifier before the references inside '
+                   f'the parenthesis are grouped, and no later pass descends into it: t u / a x are left as bare names without alias')
+    ctx.need(n >= 2, f'only {n} operand checks')
